@@ -543,3 +543,11 @@ VARIANTS += [
     dict(prop="C09", name="result-skips-last-row", expect="LAYOUT-result|no-truncation",
          edits=[dict(file=QEF, find="        for (i, row) in self.iter().enumerate() {\n            row.serialize(GenericArray::from_mut_slice(", replace="        for (i, row) in self.iter().enumerate().take(self.len().saturating_sub(1).max(1)) {\n            row.serialize(GenericArray::from_mut_slice(")]),
 ]
+
+PCF = "ipa-core/src/protocol/prss/crypto.rs"
+VARIANTS += [
+    dict(prop="C06", name="generator-key-ignores-step", expect="SHAPE-generator|generator:key=HKDF(secret, step)",
+         edits=[dict(file=PCF, find="        self.kdf.expand(context, &mut k).unwrap();", replace="        self.kdf.expand(&[], &mut k).unwrap();")]),
+    dict(prop="C06", name="generate-without-feed-forward", expect="SHAPE-generator|generate:AES(index)^index",
+         edits=[dict(file=PCF, find="        u128::from_le_bytes(buf) ^ index\n", replace="        u128::from_le_bytes(buf)\n")]),
+]
